@@ -73,6 +73,21 @@ def set_cases(spec, rng, n_random, only=None):
                 for _ in range(n_random):
                     vals.append(("rand-fit", rng.getrandbits(w) if w else 0))
                     vals.append(("rand-64", rng.getrandbits(64)))
+                # values related to what the field holds already (same low half / low byte,
+                # one bit flipped, identical): a writer that compares before writing, caches, or
+                # short-cuts on partial equality shows only here
+                if w >= 2:
+                    cur = rng.getrandbits(w)
+                    for rn, nv in (("same-low-half", cur % (1 << (w // 2))), ("same-low-byte", (cur & 0xff) | (rng.getrandbits(w) & ~0xff)),
+                                   ("msb-flipped", cur ^ (1 << (w - 1))), ("identical", cur), ("low-32-kept", (cur % (1 << 32)) if w > 32 else cur ^ 1)):
+                        nv %= 1 << w
+                        if p in ("l", "a") and f["legacy"]["valBits"] == 32:
+                            nv %= 1 << 32
+                        bg = bytearray(rng.getrandbits(8) for _ in range(H + 4))
+                        setbits(bg, 16 + fld["first"], w, cur)
+                        cs.add(["buf a " + hexs(bg), "set a 2 %s %d %s %d" % (f["name"], i, p, nv), "dump a",
+                                "get a 2 %s %d %s" % (f["name"], i, "g")],
+                               {"fmt": f["name"], "field": fld["enum"], "path": p, "pattern": "related:" + rn})
                 for vn, v in vals:
                     v %= 1 << 64          # the API takes uint64_t: every value is < 2^64
                     if p in ("l", "a") and f["legacy"]["valBits"] == 32:
@@ -194,7 +209,7 @@ def raw_check(rep, prop, exe, rc):
             nbad += 1
             q, o, b = rc.tags[i]["shape"]
             kind = "model-vs-spec" if (len(ll) == 4 and (ll[0] != ll[1] or ll[2] != ll[3])) else "real-vs-model"
-            rep.violation("Utils:%s:q%d:o%d:b%d" % (kind, q, o, b),
+            rep.violation("Utils:%s:field-spans-%d-quadlets:%s" % (kind, (o + b + 31) // 32, "starts-mid-quadlet" if o else "quadlet-aligned"),
                           {"kind": kind, "what": "raw Avtp_GetField/Avtp_SetField on descriptor (quadlet,offset,bits)",
                            "ops": rc.cases[i], "observed_real_code": c_cases.get(i), "model_and_spec": ll,
                            "stderr": err[-800:] if rcode else ""})
